@@ -9,7 +9,7 @@ from clvm_rs import Program
 from clvm_rs.clvm_rs import clvm_tree_to_lazy_node, deser_2026, deser_legacy, ser_2026
 from clvm_rs.clvm_tree import CLVMTree
 
-WRAPPERS = ["plain", "program_to", "program_wrap_lazy", "lazy", "clvmtree", "fresh_children", "program_parse"]
+WRAPPERS = ["plain", "program_to", "program_wrap_lazy", "lazy", "clvmtree", "fresh_children", "program_parse", "mixed_lazy", "mixed_program"]
 
 
 class Plain:
@@ -75,6 +75,22 @@ def wrap(kind, nodes, blob):
         return Fresh(nodes, len(nodes) - 1)
     if kind == "program_parse":
         return Program.parse(io.BytesIO(blob))
+    if kind in ("mixed_lazy", "mixed_program"):
+        # plain Python pairs on top; every sub-tree hanging below is a handle from its own deserialize call (its own
+        # Rust allocator), so equal handle indices of different allocators meet in one conversion
+        objs = []
+        top = set()
+        # the last third of the node list stays plain (when those nodes are pairs)
+        for i, n in enumerate(nodes):
+            if n[0] == "p" and i >= (2 * len(nodes)) // 3:
+                top.add(i)
+        for i, n in enumerate(nodes):
+            if i in top:
+                objs.append(Plain(None, (objs[n[1]], objs[n[2]])))
+            else:
+                sub = deser_legacy(classic_bytes(nodes, i))
+                objs.append(sub if kind == "mixed_lazy" else Program.wrap(sub))
+        return objs[-1]
     raise ValueError(kind)
 
 
@@ -113,11 +129,11 @@ def run(tier):
     c = Check("C27", tier)
     c.rule = (
         "trees as DAG node lists (sharing and value-equal copies) wrapped as: plain Python objects, Program.to, Program wrapping LazyNode, raw LazyNode, "
-        "CLVMTree, a pure-Python storage whose .pair builds fresh children on every access, Program.parse; oracle: clvm_tree_to_lazy_node(obj) walked, and "
+        "CLVMTree, a pure-Python storage whose .pair builds fresh children on every access, Program.parse, and mixed trees (plain Python pairs whose sub-trees are LazyNode / Program(LazyNode) handles from separate deserialize calls, i.e. separate Rust allocators); oracle: clvm_tree_to_lazy_node(obj) walked, and "
         "deser_2026(ser_2026(.)) walked, both equal the independent classic encoding of the tree. Non-trivial = >= 2 pairs and >= 3 distinct atoms; distinct by case."
     )
     strat = st.tuples(node_lists(), st.sampled_from(WRAPPERS))
-    c.run_part("wrappers", strat, test, c.n(4000, 60000), to_json, from_json)
+    c.run_part("wrappers", strat, test, c.n(5000, 60000), to_json, from_json)
     for w in WRAPPERS:
         c.require_label("wrapper:" + w, 100)
     return c.finish()
